@@ -238,9 +238,12 @@ func (d *deps) nodeDeps(n ast.Node, scopes depScopes) []*ast.Identifier {
 		for _, expr := range n.Expressions {
 			deps = append(deps, d.nodeDeps(expr, scopes)...)
 		}
+		// The body of a case is a block.
+		scopes = enterScope(scopes)
 		for _, node := range n.Body {
 			deps = append(deps, d.nodeDeps(node, scopes)...)
 		}
+		scopes = exitScope(scopes)
 		return deps
 	case *ast.ChanType:
 		return d.nodeDeps(n.ElementType, scopes)
@@ -307,6 +310,10 @@ func (d *deps) nodeDeps(n ast.Node, scopes depScopes) []*ast.Identifier {
 		scopes = exitScope(scopes)
 		return deps
 	case *ast.Func:
+		// The parameters and the results are declared in the scope of the
+		// function, not in the scope that encloses it.
+		deps := d.nodeDeps(n.Type, scopes)
+		scopes = enterScope(scopes)
 		for _, f := range n.Type.Parameters {
 			if f.Ident != nil {
 				scopes = declareLocally(scopes, f.Ident.Name)
@@ -317,10 +324,10 @@ func (d *deps) nodeDeps(n ast.Node, scopes depScopes) []*ast.Identifier {
 				scopes = declareLocally(scopes, f.Ident.Name)
 			}
 		}
-		deps := d.nodeDeps(n.Type, scopes)
 		if n.Body != nil {
 			deps = append(deps, d.nodeDeps(n.Body, scopes)...)
 		}
+		scopes = exitScope(scopes)
 		return deps
 	case *ast.FuncType:
 		deps := []*ast.Identifier{}
